@@ -1,0 +1,12 @@
+//go:build verif
+
+// Contracts for contract-based deductive verification (checked by /verif/govc).
+// This file is comment-only and compiled only with the build tag "verif".
+
+package resmgr
+
+// Expression.String is fmt.Sprintf("<%s %s %s>", ...): the formatted text is outside the verified subset
+// (fmt results are unconstrained strings); ASSUMED: it is never empty (it always contains "<" and ">").
+//@ assume-contract (*Expression).String
+//@   modifies nothing
+//@   ensures result != ""
